@@ -19,6 +19,7 @@ RULE = ("exhaustive exploration of command histories of depth <=3 (quick; thorou
         "the digest of every recorded version directory is unchanged by every later command and unchanged between the moment its row "
         "is committed and the end of the invocation (one task leaves a background process that holds stdout open past the shell's exit)"
         " The same commands are also run on a variant of the project whose last task lists its dependency twice in two spellings."
+        " Interrupts: ConductorAbort injected at every executed line, eval-breaker instruction and after every pure C call of a `cond run` of 1-2 experiments: no recorded version's directory is deleted."
         ' One of the three experiments lives in a nested package (//p/q:e0) so that per-package output paths are exercised.')
 ASSUMPTIONS = [
     "'empty when the command starts' is read modulo Conductor's own stdout.log/stderr.log (opened before the spawn in slot mode)",
@@ -66,6 +67,10 @@ def items(tier):
     for a in ("ok", "ok-j2", "fail-e1"):
         for b in ("ok", "ok-j2"):
             out.append({"prefix": [[a, 1], [b, 1]], "depth": 2, "cond": "dup"})
+    # "a recorded version's directory is deleted only by `cond clean`" under interrupts: ConductorAbort injected at every line, every
+    # eval-breaker instruction and after every pure C call (e.g. right after sqlite's commit returned) of a `cond run` (family shared with C06)
+    from . import c06
+    out += [dict(i, kind="abort") for i in c06.abort_items(tier)]
     return out
 
 
@@ -218,6 +223,17 @@ def do_command(root, cmd, clock_t, archives, check):
 def run_item(item, tier):
     res = {"evals": 0, "sigs": set(), "states": set(), "transitions": 0, "violations": [], "counters": {}, "sample": None}
     found = {}
+    if item.get("kind") == "abort":
+        from . import c06
+
+        def viol(key, what, art):
+            if key == "abort:row-without-directory":
+                found.setdefault("interrupt:recorded-directory-deleted", (what, dict(art, kind="abort")))
+        c06.run_abort(item, res, viol, only_target=item.get("only_target"))
+        res["transitions"] = res["evals"]
+        for key, (what, art) in found.items():
+            res["violations"].append({"key": key, "what": what, "artefact": art})
+        return res
     archives = make_archives()
     letters = [(c, s) for c in CMDS for s in STEPS] + [("edit", 0)]
     root = driver.fresh_project({"COND": CONDS[item.get("cond", "std")], "p/q/COND": COND_PQ}, name="c08")
@@ -271,6 +287,10 @@ def run_item(item, tier):
 
 def replay(artefact):
     found = {}
+    if artefact.get("kind") == "abort":
+        r = run_item({"kind": "abort", "case": artefact["case"], "case_index": artefact["case_index"], "granularity": artefact["granularity"],
+                      "chunk": 0, "nchunks": 1, "only_target": artefact["target"]}, "quick")
+        return [(v["key"], v["what"]) for v in r["violations"]]
     archives = make_archives()
     root = driver.fresh_project({"COND": CONDS[artefact.get("cond", "std")], "p/q/COND": COND_PQ}, name="c08")
     os.makedirs(os.path.join(root, "cond-out"), exist_ok=True)
